@@ -410,6 +410,14 @@ class Layouts:
                 a = args[0]
                 if is_const(a) and isinstance(a[1], int):
                     return [Zeros(a[1])]
+                if a[0] == "bin" and a[1] in ("-", "+") and any(call_is(x, "len") for x in subterms(a)):
+                    # bytes(40 - len(header)): zero padding up to a fixed size - its length is the affine form, constant once the lengths are
+                    try:
+                        n_ = self.int_lin(a)
+                    except Exception:
+                        n_ = None
+                    if n_ is not None and n_.is_const() and 0 <= n_.c <= 4096:
+                        return [Zeros(int(n_.c))]
                 items = self.int_list(a)
                 if items is not None:
                     out = []
